@@ -32,18 +32,19 @@ type Scenario struct {
 
 // ChainParams of one generated chain.
 type ChainParams struct {
-	Scenario *Scenario
-	Dir      string
-	Name     string
-	Seed     uint64
-	Rng      *hx.Rng
-	Epochs   int
-	Plain    bool // plain minimal preset (forks only)
-	Corrupt  int  // number of corrupted blocks to derive
-	Cancel   int  // number of steps to run the cancellation sweep on
-	Engine   int  // number of steps to run the engine verdict sweep on
-	Genesis  int  // number of adversarial genesis records
-	ForkBias string
+	Scenario    *Scenario
+	Dir         string
+	Name        string
+	Seed        uint64
+	Rng         *hx.Rng
+	Epochs      int
+	Plain       bool // plain minimal preset (forks only)
+	Corrupt     int  // number of corrupted blocks to derive
+	Cancel      int  // number of steps to run the cancellation sweep on
+	Engine      int  // number of steps to run the engine verdict sweep on
+	Genesis     int  // number of adversarial genesis records
+	ForkBias    string
+	WideForks   bool
 	GenesisOnly bool // directory with genesis records only (C13 stream)
 }
 
@@ -86,6 +87,7 @@ func Generate(pr ChainParams) (res ChainResult) {
 	if pr.ForkBias != "" {
 		knobs.ForkBias = pr.ForkBias
 	}
+	knobs.WideForks = pr.WideForks
 	sp := TinySpec(r.Fork(), knobs)
 	if err := CheckSpec(sp); err != nil {
 		res.Err = err
@@ -181,8 +183,8 @@ func (c *Chain) finish(res *ChainResult, pr ChainParams) {
 	c.Stats.C["bls_agg"] = nagg
 	meta := map[string]interface{}{
 		"scenario": c.Scenario.Name, "seed": pr.Seed, "name": pr.Name, "epochs": pr.Epochs,
-		"config_name": c.Spec.CONFIG_NAME,
-		"fork_epochs": []uint64{uint64(c.Spec.ALTAIR_FORK_EPOCH), uint64(c.Spec.BELLATRIX_FORK_EPOCH), uint64(c.Spec.CAPELLA_FORK_EPOCH), uint64(c.Spec.DENEB_FORK_EPOCH)},
+		"config_name":     c.Spec.CONFIG_NAME,
+		"fork_epochs":     []uint64{uint64(c.Spec.ALTAIR_FORK_EPOCH), uint64(c.Spec.BELLATRIX_FORK_EPOCH), uint64(c.Spec.CAPELLA_FORK_EPOCH), uint64(c.Spec.DENEB_FORK_EPOCH)},
 		"slots_per_epoch": uint64(c.Spec.SLOTS_PER_EPOCH),
 		"validators":      len(c.Vals),
 		"counts":          c.Stats.C, "problems": c.Problems, "unmet_expectations": res.Unmet, "live_context_divergences": c.divergences,
